@@ -211,12 +211,14 @@ def run_cases(hbin, case_lines, timeout=600, env=None):
                        timeout=timeout, env=env)
     res = []
     for l in p.stdout.splitlines():
+        if l.startswith("#RUN "):
+            continue
         f = l.split("\t")
         res.append((f[0], f[1] if len(f) > 1 else "?"))
     if p.returncode != 0 or len(res) != len(case_lines):
         done = len(res)
         crashed = case_lines[done] if done < len(case_lines) else "?"
-        tail = (p.stderr or "")[-1500:]
+        tail = (p.stderr or "")[:1500]
         res.append((crashed, "CRASH " + " ".join(tail.split())[:600]))
         # continue after the crashed case
         if done + 1 < len(case_lines):
@@ -228,13 +230,18 @@ def gen_cases(hbin, gen, seed, n, thorough, timeout=3600, env=None):
     cmd = [hbin, "gen", gen, "-seed", str(seed), "-n", str(n), "-tier", "thorough" if thorough else "quick"]
     p = subprocess.run(cmd, capture_output=True, text=True, timeout=timeout, env=env)
     res = []
+    running = None
     for l in p.stdout.splitlines():
+        if l.startswith("#RUN "):
+            running = l[5:]
+            continue
         f = l.split("\t")
         if len(f) >= 2:
             res.append((f[0], f[1]))
+            running = None
     crash = None
     if p.returncode != 0:
-        crash = " ".join((p.stderr or "").split())[-800:]
+        crash = (running, " ".join((p.stderr or "").split())[:800])
     return res, crash
 
 
@@ -250,7 +257,7 @@ def evaluate(prop, pairs):
     fails = []
     for (c, g), (m, s) in zip(pairs, ms):
         if g.startswith("CRASH") or g.startswith("PANIC"):
-            fails.append({"kind": "property", "case": c, "go": g, "model": m, "spec": s,
+            fails.append({"kind": prop.get("on_crash", "property"), "case": c, "go": g, "model": m, "spec": s,
                           "why": "the real code crashed / panicked"})
             continue
         corr, ok = cmpf(c, g, m, s)
@@ -480,8 +487,9 @@ def main(argv):
                 pairs, crash = gen_cases(hb, g["id"], sd, n, thorough, env=env)
                 fails = evaluate(prop, pairs)
                 if crash:
-                    fails.append({"kind": "property", "case": f"<generator {g['id']} seed {sd} n {n}>", "go": "CRASH " + crash,
-                                  "model": "", "spec": "", "why": "the harness process died (panic in the real code?)"})
+                    fails.append({"kind": prop.get("on_crash", "property"),
+                                  "case": crash[0] or f"<generator {g['id']} seed {sd} n {n}>", "go": "CRASH " + crash[1],
+                                  "model": "", "spec": "", "why": "the harness process died (panic in the real code)"})
                 return pairs, fails
 
             workers = 1 if not thorough else min(12, max(1, len(jobs)))
